@@ -1,9 +1,9 @@
-\* U1 (as intended): the whole life cycle. All sessions of caller and callee start attached except s4 (callee's second
-\* device: only on "me", so that acceptance from a detached session is covered); sets only shrink (leave / disconnect).
+\* U1 (repair variant): as Call_U1_life.cfg, but "accept" is taken only from attached sessions - the monitors hold for this design, too.
+\* (DEV_DetachedPartyOutlivesSession may then be TRUE or FALSE: no detached session ever becomes a party.)
 CONSTANTS
   Configured = TRUE
-  DEV_DetachedPartyOutlivesSession = FALSE
-  FIX_DetachedAcceptRefused = FALSE
+  DEV_DetachedPartyOutlivesSession = TRUE
+  FIX_DetachedAcceptRefused = TRUE
   Kinds = {"Leave", "Disconnect", "Pub", "Invite", "Note", "Timeout"}
   MaxSeq = 3
   MaxDepth = 0
@@ -22,5 +22,6 @@ VIEW StView
 INVARIANT TypeOK
 INVARIANT U1Hold
 INVARIANT PartiesAlive
+INVARIANT PartiesAttached
 INVARIANT EndsOnce
 CHECK_DEADLOCK FALSE
